@@ -6,6 +6,7 @@ import (
 	"bytes"
 	"context"
 	"fmt"
+	"io"
 	"strings"
 	"time"
 
@@ -148,13 +149,13 @@ func init() {
 
 // q02 is a point of the query space: every field is an index into its alphabet (0 = base).
 type q02 struct {
-	f    [13]int
+	f    [14]int
 	comp ch.Compression
 	rev  int
 }
 
-var q02Alph = [13]int{3, 4, 3, 3, 3, 2, 2, 2, 2, 3, 9, 2, 3}
-var q02Names = [13]string{"id", "body", "connset", "qset", "params", "secret", "quota", "optquota", "inituser", "external", "input", "span", "input2"}
+var q02Alph = [14]int{3, 4, 3, 3, 3, 2, 2, 2, 2, 3, 9, 2, 3, 2}
+var q02Names = [14]string{"id", "body", "connset", "qset", "params", "secret", "quota", "optquota", "inituser", "external", "input", "span", "input2", "stream"}
 
 func (k q02) id() string {
 	var sb strings.Builder
@@ -257,7 +258,49 @@ func body02(k q02) Body {
 			q.Input = append(q.Input, proto.InputColumn{Name: ic.name, Data: ic.mk()})
 		}
 		if len(input) > 0 {
-			want = append(want, blk{"", input}, blk{"", nil})
+			want = append(want, blk{"", input})
+			if k.f[13] == 1 {
+				// streamed: a second round refills the same column objects (Reset + Append of other
+				// values), a third call ends the input
+				second := make([]inCol, len(input))
+				round := 0
+				q.OnInput = func(ctx context.Context) error {
+					round++
+					if round == 2 {
+						for _, in := range q.Input {
+							in.Data.(proto.Resettable).Reset()
+						}
+						return io.EOF
+					}
+					return nil
+				}
+				for i, in := range q.Input {
+					i, in := i, in
+					second[i] = inCol{name: input[i].name, typ: input[i].typ}
+					w, werr := reg.Wrap(in.Data.(proto.Column), input[i].name)
+					if werr != nil {
+						return Outcome{Key: "C02/harness", Detail: werr.Error()}
+					}
+					a := w.Alphabet()
+					prev := q.OnInput
+					q.OnInput = func(ctx context.Context) error {
+						if round == 0 {
+							w.C.Reset()
+							for j := 0; j < 2; j++ {
+								v := a[(i+j+2)%len(a)]
+								w.Append(v)
+								second[i].vals = append(second[i].vals, w.Canon(v))
+							}
+						}
+						if i == 0 {
+							return prev(ctx)
+						}
+						return prev(ctx)
+					}
+				}
+				want = append(want, blk{"", second})
+			}
+			want = append(want, blk{"", nil})
 		}
 		ctx := context.Background()
 		var span refwire.Span
@@ -271,7 +314,11 @@ func body02(k q02) Body {
 		}
 
 		// peer: schema for the input columns, then end of stream
-		steps := []Step{{Name: "await-query", AwaitN: len(want) - map[bool]int{true: 2, false: 0}[len(input) > 0]}}
+		nPre := 2 // Query + terminator of the external data
+		if k.f[9] != 0 {
+			nPre++
+		}
+		steps := []Step{{Name: "await-query", AwaitN: nPre}}
 		if len(input) > 0 {
 			var sc []refcol.BlockCol
 			for _, ic := range input {
@@ -279,7 +326,6 @@ func body02(k q02) Body {
 			}
 			steps = append(steps, Step{Name: "schema", Send: c.W.Data(0, sc...)}, Step{Name: "await-data", AwaitN: 1 + len(want)})
 		}
-		steps[0].AwaitN++ // the Query packet itself
 		steps = append(steps, Step{Name: "eos", Send: EOS()})
 		c.RunPeer("peer", c.HsLen, steps, nil)
 		derr := c.Cl.Do(ctx, q)
@@ -373,7 +419,7 @@ func body02(k q02) Body {
 
 // C02 — everything the client writes for a query is a well-formed packet sequence.
 func C02(c *vk.Ctx) {
-	c.Rule("queries with <= 2 fields deviating from a base query over per-field alphabets (query id given / generated / 300 bytes; body short / empty / 70 KiB / non-UTF-8; 0..2 connection settings; 0..2 query settings incl. an override and an empty value; 0..2 parameters; secret; query quota key; connection quota key (addendum); initial user; external data none / default table / named table with 2 columns; input of 1..3 columns over 32 column types (integers to 256 bits, floats, Bool, UUID, IPv4/6, dates, DateTime64, Decimal, FixedString, name-based enums that must adopt the server's definition, JSON, Point, Nullable, LowCardinality, nested arrays, Array(LowCardinality), Map(String, Array), Tuple); OpenTelemetry span context) x {Disabled, None, LZ4, LZ4HC, ZSTD} at the newest revision, and queries with <= 1 deviation x every revision of the threshold-neighbour set from 54420 up x {Disabled, LZ4}. Each case is one execution of the real Connect + Do (default schedule); the recorded client bytes are compared with the reference encoding (Query packet byte for byte; blocks by reference decoding incl. frame checksum). distinct_nontrivial = cases.")
+	c.Rule("queries with <= 2 fields deviating from a base query over per-field alphabets (query id given / generated / 300 bytes; body short / empty / 70 KiB / non-UTF-8; 0..2 connection settings; 0..2 query settings incl. an override and an empty value; 0..2 parameters; secret; query quota key; connection quota key (addendum); initial user; external data none / default table / named table with 2 columns; input of 1..3 columns, sent as one block or streamed in two rounds through OnInput (Reset + refill of the same column objects), over 32 column types (integers to 256 bits, floats, Bool, UUID, IPv4/6, dates, DateTime64, Decimal, FixedString, name-based enums that must adopt the server's definition, JSON, Point, Nullable, LowCardinality, nested arrays, Array(LowCardinality), Map(String, Array), Tuple); OpenTelemetry span context) x {Disabled, None, LZ4, LZ4HC, ZSTD} at the newest revision, and queries with <= 1 deviation x every revision of the threshold-neighbour set from 54420 up x {Disabled, LZ4}. Each case is one execution of the real Connect + Do (default schedule); the recorded client bytes are compared with the reference encoding (Query packet byte for byte; blocks by reference decoding incl. frame checksum). distinct_nontrivial = cases.")
 	run := func(k q02, group string) {
 		id := k.id()
 		if !c.Next(id) {
@@ -397,8 +443,8 @@ func C02(c *vk.Ctx) {
 	// partition 1: <= 2 deviations x compression, newest revision
 	var rec func(k q02, from, left int)
 	rec = func(k q02, from, left int) {
-		if k.f[12] != 0 && k.f[10] == 0 {
-			return // second input column without a first
+		if (k.f[12] != 0 || k.f[13] != 0) && k.f[10] == 0 {
+			return // second input column / streaming without a first input column
 		}
 		for _, comp := range comps {
 			kk := k
@@ -447,6 +493,6 @@ func C02(c *vk.Ctx) {
 		}
 	}
 	rec2(q02{}, 0, 1)
-	c.Sample(map[string]any{"case": q02{f: [13]int{0, 0, 1, 2, 0, 0, 0, 0, 0, 0, 0, 0, 0}, comp: ch.CompressionLZ4, rev: ServerRev}.id(),
+	c.Sample(map[string]any{"case": q02{f: [14]int{0, 0, 1, 2, 0, 0, 0, 0, 0, 0, 0, 0, 0}, comp: ch.CompressionLZ4, rev: ServerRev}.id(),
 		"meaning": "connection setting max_threads=1 (important) + query settings max_threads=8, d='' -> Query packet must list them in that order; blocks in one LZ4 frame each"})
 }
